@@ -1,5 +1,7 @@
 import SpoxModel.Lemmas.Scope
+import SpoxModel.Lemmas.ScopeHist
 import SpoxModel.Lemmas.Named
+import SpoxModel.Lemmas.NamedComplete
 import SpoxModel.Lemmas.BuildIR
 import SpoxModel.Lemmas.InlineCheck
 import SpoxModel.Lemmas.Func
@@ -98,6 +100,49 @@ theorem clash_raises_rename (s : Space) (h : Inv s) (o : Nat) (n n' : String)
 theorem reserve_clash_raises (s : Space) (n : String) (hc : s.hasName n = true) :
     s.reserve n = .error .scope := by
   unfold Space.reserve; simp [hc]
+
+/-! ### round 10: the one-step clash lemmas lifted to every history
+
+The four lemmas above speak about ONE operation on a state that satisfies `Inv`. Here the state is
+*any* state reachable from the empty namespace by *any* successful operation sequence (any length, child
+namespaces, deletions, counters …) and the conclusion is about the whole history: it raises at that
+operation, whatever operations would follow — no later operation can "repair" a double binding. -/
+
+/-- **No history binds one name to two objects.** After any successful history in which `n` is visible
+    as the name of `o'`, every continuation that starts by giving `n` to another object raises
+    `ScopeError`. -/
+theorem history_never_binds_twice (ops rest : List Op) (s : Space) (h : run {} ops = .ok s) (o o' : Nat)
+    (n : String) (hm : (o', n) ∈ allPairs s.frames) (hne : o' ≠ o) :
+    run {} (ops ++ .set n o :: rest) = .error .scope :=
+  run_stops ops s (.set n o) rest .scope h (clash_raises_name s (ops_inv ops s h) o o' n hm hne)
+
+/-- **No history binds a reserved name** (an inlined model's internal name, an adapter-introduced name). -/
+theorem history_never_binds_reserved (ops rest : List Op) (s : Space) (h : run {} ops = .ok s) (o : Nat)
+    (n : String) (hr : n ∈ allReserved s.frames) : ∃ e, run {} (ops ++ .set n o :: rest) = .error e := by
+  obtain ⟨e, he⟩ := clash_raises_reserved s (ops_inv ops s h) o n hr
+  exact ⟨e, run_stops ops s (.set n o) rest e h he⟩
+
+/-- **No history renames an object.** -/
+theorem history_never_renames (ops rest : List Op) (s : Space) (h : run {} ops = .ok s) (o : Nat)
+    (n n' : String) (hm : (o, n') ∈ allPairs s.frames) (hne : n ≠ n') :
+    ∃ e, run {} (ops ++ .set n o :: rest) = .error e := by
+  obtain ⟨e, he⟩ := clash_raises_rename s (ops_inv ops s h) o n n' hm hne
+  exact ⟨e, run_stops ops s (.set n o) rest e h he⟩
+
+/-- **No history reserves a name that is visible** (bound or reserved, here or in an enclosing namespace). -/
+theorem history_never_reserves_visible (ops rest : List Op) (s : Space) (h : run {} ops = .ok s)
+    (n : String) (hc : s.hasName n = true) : run {} (ops ++ .reserve n :: rest) = .error .scope :=
+  run_stops ops s (.reserve n) rest .scope h (reserve_clash_raises s n hc)
+
+/-- …and the other direction (the check never refuses what the property allows): a name that is not visible
+    can be given to an object that has no name yet, and is then visible as that object's name. -/
+theorem fresh_binding_accepted (s : Space) (o : Nat) (n : String) (hn : s.hasName n = false)
+    (ho : s.hasObj o = false) :
+    ∃ s', s.setitem n o = .ok s' ∧ (o, n) ∈ allPairs s'.frames := by
+  refine ⟨{ s with cur := { s.cur with pairs := (o, n) :: s.cur.pairs } }, ?_, ?_⟩
+  · unfold Space.setitem
+    simp [hn, ho]
+  · simp [Space.frames, allPairs]
 
 /-- `Scope.update` (naming a node and its outputs) keeps the invariant of both namespaces. -/
 theorem update_keeps_inv (sc sc' : Scope) (pfx opId nm : String) (nodeId : Nat) (outs : List OutVar)
@@ -212,6 +257,38 @@ theorem checkStructural_sound (g : Named.NGraph) (h : Named.checkStructural g = 
   | some st =>
     have := Named.checkGraph_sound g [] [] st hc
     exact ⟨Named.valueNames_nodup this.1.nodup, Named.nodeNames_nodup this.1.nodup, this.2⟩
+
+/-- **The translation validator refuses nothing the statement allows** (round 10, the converse of
+    `checkStructural_sound`). A graph tree — any nesting depth, any number of nodes and bodies — in which
+    every value name and every non-empty node name is defined once model-wide and every non-empty node
+    input / graph output is defined earlier in the same or an enclosing graph is ACCEPTED by the checker,
+    provided it is well-formed in the two extra respects the checker looks at (`WfG`: no graph lists an
+    initializer twice, no graph input / initializer has the empty name). So a `walker`/`checkStructural`
+    rejection of a model returned by `build` always exhibits a violated clause. -/
+theorem checkStructural_complete (g : Named.NGraph)
+    (hv : (Named.valueNames (Named.defsG g)).Nodup) (hn : (Named.nodeNames (Named.defsG g)).Nodup)
+    (hs : Named.ScopedG [] g) (hw : Named.WfG g) : Named.checkStructural g = true := by
+  unfold Named.checkStructural
+  obtain ⟨st', h⟩ := Named.checkGraph_complete g [] [] (Named.defs_nodup_of_split _ hv hn)
+    (fun d _ hd => by cases hd) hs hw
+  simp [h]
+
+/-- acceptance = the declarative statement, exactly (on well-formed trees) -/
+theorem checkStructural_iff (g : Named.NGraph) (hw : Named.WfG g) :
+    Named.checkStructural g = true ↔
+      ((Named.valueNames (Named.defsG g)).Nodup ∧ (Named.nodeNames (Named.defsG g)).Nodup ∧
+       Named.ScopedG [] g) :=
+  ⟨checkStructural_sound g, fun h => checkStructural_complete g h.1 h.2.1 h.2.2 hw⟩
+
+/-- the program the driver runs next to the checker on every real graph decides `WfG`; with
+    `checkStructural_iff`: where it answers `true`, the checker's verdict IS the declarative statement -/
+theorem wf_decided (g : Named.NGraph) : Named.wfB g = true ↔ Named.WfG g := Named.wfB_iff g
+
+theorem checkStructural_exact (g : Named.NGraph) (hw : Named.wfB g = true) :
+    Named.checkStructural g = true ↔
+      ((Named.valueNames (Named.defsG g)).Nodup ∧ (Named.nodeNames (Named.defsG g)).Nodup ∧
+       Named.ScopedG [] g) :=
+  checkStructural_iff g ((wf_decided g).mp hw)
 
 open Generated.BuildFlags BuildIR in
 /-- Obligation tying the theorem to the source: with the parameters `build` passes, every path of
@@ -475,6 +552,9 @@ example : outcome (run {} [.set "x" 1, .reserve "Inline_0__x", .set "y" 2, .push
   decide
 -- a child namespace sees its parent's names
 example : outcome (run {} [.set "x" 1, .push, .set "x" 2]) = some .scope := by decide
+example : outcome (run {} ([.set "x" 1, .push, .enum "x", .set "y" 2] ++ .set "x" 3 :: [.pop, .del "x"])) = some .scope := by
+  decide
+example : outcome (run {} ([.reserve "Inline_0__t", .push] ++ .reserve "Inline_0__t" :: [.pop])) = some .scope := by decide
 -- the checker accepts a nested well-formed graph and rejects shadowing / use-before-def / duplicates
 open Named in
 example : checkStructural (.mk ["x", "c"] [] [.mk "If_0" ["c"] ["r"] [.mk [] [] [.mk "n" ["x"] ["t"] []] ["t"]]] ["r"]) = true := by
@@ -486,6 +566,12 @@ open Named in
 example : checkStructural (.mk ["x"] [] [.mk "a" ["y"] ["z"] [], .mk "b" ["x"] ["y"] []] ["z"]) = false := by decide
 open Named in
 example : checkStructural (.mk ["x"] [] [.mk "a" ["x"] ["y"] [], .mk "a" ["y"] ["z"] []] ["z"]) = false := by decide
+-- completeness: the hypotheses are satisfiable on a nested tree, and `WfG` is needed (an initializer listed
+-- twice under an input's name defines nothing twice, yet the checker refuses it)
+example : Named.WfG (.mk ["x", "c"] ["w"] [.mk "If_0" ["c"] ["r"] [.mk [] [] [.mk "n" ["x", "w"] ["t"] []] ["t"]]] ["r"]) := by
+  simp [Named.WfG, Named.WfNs, Named.WfGs, Named.entryNames]
+example : Named.checkStructural (.mk ["x"] ["x", "x"] [] ["x"]) = false ∧
+    Named.defsG (.mk ["x"] ["x", "x"] [] ["x"]) = [(true, "x")] := by decide
 -- deleting the checker call, or checking a different variable, is not a safe shape
 open Named in
 -- a body-local value of a Loop body leaked to a SIBLING If branch (use without a visible definition): rejected
